@@ -403,7 +403,7 @@ def run(pid, tier, replay=None):
                             f"(status {rr.get('status')}, panic {str(rr.get('panic'))[:120]})",
                             {"id": f"session:{inputs[a][0]}+{inputs[b][0]}", "text": "\n".join(sessions[k][2]), "mode": "repl",
                              "observed": {"status": rr.get("status"), "stdout": rr.get("stdout", "")[:400], "stderr": rr.get("stderr", "")[-600:], "panic": rr.get("panic")}})
-    os.remove(path)
+    vlib.drop_trace(path, "frontend")
     v.cov["evaluations"] = len(inputs) + runs + len(sessions)
     v.cov["distinct_nontrivial"] = len({t for _, t in inputs})
     v.cov["traces_validated_against_impl"] = runs + len(sessions)
